@@ -68,6 +68,24 @@ func eachTerm(c *core.Ctx, r *core.Result, p plan, f func(t *tm.Term)) {
 			return
 		}
 	}
+	// hand-picked corner compositions
+	ex := tm.Extras()
+	emptyOK := false
+	for _, a := range p.alphabet {
+		if a == "" {
+			emptyOK = true
+		}
+	}
+	for i, t := range ex {
+		if !emptyOK && hasEmptySlot(t) {
+			// the property is quantified over non-empty strings
+			continue
+		}
+		if c.Mine(base + int64(i)) {
+			f(t)
+		}
+	}
+	base += int64(len(ex))
 	// quirk pass (see tm.Op.QuirkOf)
 	for i, t := range tm.QuirkTerms() {
 		if c.Mine(base + int64(i)) {
@@ -329,3 +347,13 @@ func typeTail(s string) string {
 }
 
 func jsonUnmarshal(b []byte, v interface{}) error { return json.Unmarshal(b, v) }
+
+func hasEmptySlot(t *tm.Term) bool {
+	empty := false
+	t.EachSlot(func(k int, o *tm.Term, i int) {
+		if o.S[i] == "" {
+			empty = true
+		}
+	})
+	return empty
+}
